@@ -7,6 +7,10 @@ TECH = "bounded symbolic execution of the real code's go/ssa form, every branch/
 BASE = "cd /repo && go test -vet=off -count=1 -timeout 25m ./..."
 
 CLAIMED = {
+ "C20": dict(
+   text="All histories of k=4 (quick) / 6 (thorough) operations {save+Push(seq, slot), Pop(seq)+Discard} over the real ByteBuffer + SlotSequencer + SlotOffsetter + sequencedSlots + FenwickTree + sort.Search, with SYMBOLIC sequence numbers (any order, duplicates, misses), packet lengths case-split in 1..3 and symbolic packet bytes, maxSlots=3, maxBytes=16; followed by a drain of everything still parked in insertion or reverse order. Asserted: popped slot addresses exactly the bytes saved under that number (every byte) before the discard, discard removes exactly them, all others stay retrievable and intact, duplicates rejected without change, capacity excess reported as error, Size()/Bytes()/SaveLen equal the ghost totals.",
+   note="Bounded: histories longer than k, packets longer than 3 bytes, larger trees are outside the claim; PopRange (unexported, unused) not covered. Trusts go/ssa, the engine, z3/cvc5.",
+   ref="DESIGN.md §4 C20"),
  "C19": dict(
    text="frame.Codec.Decode from an ARBITRARY buffer (sizes <= 2^40, arbitrary bytes, arbitrary 4-byte prefix): outcome class, payload bytes at an arbitrary index, prefix consumed, rest of stream kept, declared length > 1 GiB => error with no buffering (capacity unchanged); the lazy consume step separately; Encode into an arbitrary buffer for payloads 0..2 GiB; CodecConn.WriteNext/AsyncWriteNext over a scripted transport with partial writes: transport receives exactly prefix++payload and nothing stays behind; ReadNext/AsyncReadNext of one item of symbolic length delivered in <= 3/4 segments of symbolic sizes (split points anywhere); two items of length <= 2/3 written then read under every segmentation (concrete sizes).",
    note="Trusts go/ssa, the engine, z3/cvc5. Transport model: reads return 1..min(len,remaining) bytes, writes accept 1..len bytes. Histories longer than two items and more than 3/4 segments per item are outside the claim.",
